@@ -79,6 +79,17 @@ def run(ctx: Ctx) -> None:
         rep = {"ahb": spec, "content_evaluation": cer, "soll_is_required": soll, "invalid_at": sorted(invalid_discs), "invalid_pool_entries": invalid_entries}
         if "err" in a:
             if "err" not in b:
+                # is the abort really about an invalid expression?  A planted multi-part expression may contain a (valid-looking) part that the library cannot
+                # evaluate at all (a juxtaposition run that Lark groups as format constraint next to format constraint raises NotImplementedError); the AHB
+                # with 'Kann' in its place no longer contains that part, so the two runs are not comparable
+                own = []
+                for kind, node, _ in V.walk(spec):
+                    for x in ([e["expr"] for e in node["entries"]] if kind == "pool" else [node["expr"]]):
+                        if x.get("invalid"):
+                            own.append(V.eval_node_expr(V.expr_text(x), cer))
+                if any("raises" in ev for ev in own):
+                    ctx.count("skipped", "a planted expression raises on its own (not an invalid-expression error)")
+                    continue
                 ctx.violation(f"an invalid expression aborts validation ({a['err']})", rep, key=f"abort:{a['err']}")
             continue
         if "err" in b:
